@@ -218,7 +218,8 @@ class Layout:
             self.put(rng.choice([" ", "\t", "  "]))
             self.expected.append(("PPPRAGMASTR", body, self.line, self.col, self.file))
             self.put(body)
-        self.put("\n")
+        # blanks between the last token of the line and the newline are layout
+        self.put(rng.choice(["", "", " ", "\t", "  \t"]) + "\n")
 
     def text(self):
         return "".join(self.parts)
